@@ -130,6 +130,66 @@ class Renamed:
         pass
 
 
+def _sensitivity_audit(pid: str, out) -> Dict[str, Any]:
+    """Thorough tier, clean tree only: apply every catalogued variant of this property (selftest/<pid>.py: mutants that must be
+    reported, behaviour-preserving twins that must stay silent) and every adopted seeded change (seeded/<pid>-*) to scratch copies
+    of the current sources and run the quick rules on each.  Pure static analysis of the variants; nothing is executed.  The
+    outcome is evidence about the checker, it never changes the verdict on the tree."""
+    res: Dict[str, Any] = {}
+    try:
+        from gxstat import selftest
+        rs = selftest.run_selftest(pid, 'quick')
+        cnt: Dict[str, int] = {}
+        for r in rs:
+            cnt[r['status']] = cnt.get(r['status'], 0) + 1
+        res['catalogue'] = {'cases': len(rs), 'by_status': cnt}
+        attention = [r for r in rs if r['status'] in ('MISSED', 'FALSE-ALARM', 'analysis-error', 'harness-error')]
+        for r in attention:
+            out(f"AUDIT-ATTENTION property={pid} case={r['id']} status={r['status']} {r.get('why', '')[:160]}")
+        res['attention'] = [r['id'] for r in attention]
+    except Exception as e:      # the audit must never break the check
+        res['catalogue'] = f'not run: {e.__class__.__name__}: {e}'
+    try:
+        res['seeded_changes'] = _seed_audit(pid, out)
+    except Exception as e:
+        res['seeded_changes'] = f'not run: {e.__class__.__name__}: {e}'
+    c = res.get('catalogue')
+    if isinstance(c, dict):
+        out(f"AUDIT property={pid} catalogue={c['cases']} {c['by_status']} seeded={res.get('seeded_changes')}")
+    return res
+
+
+def _seed_audit(pid: str, out) -> Dict[str, Any]:
+    import shutil
+    import subprocess
+    import tempfile
+    root = os.path.join(VERIF, 'seeded')
+    rows: Dict[str, str] = {}
+    if not os.path.isdir(root):
+        return rows
+    for name in sorted(os.listdir(root)):
+        d = os.path.join(root, name)
+        meta_p, patch = os.path.join(d, 'meta.json'), os.path.join(d, 'patch.diff')
+        if not (name.startswith(pid + '-') and os.path.isfile(meta_p) and os.path.isfile(patch)):
+            continue
+        tmp = tempfile.mkdtemp(prefix='gxstat-seed-')
+        try:
+            shutil.copytree(os.path.join(REPO_ROOT, 'src'), os.path.join(tmp, 'src'), ignore=shutil.ignore_patterns('__pycache__', '*.pyc'))
+            ap = subprocess.run(['patch', '-p1', '-s', '-d', tmp, '-i', patch], capture_output=True, text=True)
+            if ap.returncode != 0:
+                rows[name] = 'patch-stale'
+                continue
+            pr = subprocess.run([sys.executable, os.path.join(VERIF, 'gxstat', 'selftest_child.py'), pid, 'quick', tmp],
+                                capture_output=True, text=True, timeout=900,
+                                env=dict(os.environ, GXSTAT_REPO=tmp, GXSTAT_NO_EVIDENCE='1'))
+            rows[name] = {0: 'MISSED', 1: 'caught', 2: 'analysis-error'}.get(pr.returncode, f'exit {pr.returncode}')
+            if pr.returncode != 1:
+                out(f'AUDIT-ATTENTION property={pid} seeded={name} status={rows[name]}')
+        finally:
+            shutil.rmtree(tmp, ignore_errors=True)
+    return rows
+
+
 def run_check(pid: str, tier: str, replay: Optional[str] = None, repo_root: Optional[str] = None,
               write_evidence: bool = True, quiet: bool = False) -> int:
     t0 = time.time()
@@ -194,6 +254,10 @@ def run_check(pid: str, tier: str, replay: Optional[str] = None, repo_root: Opti
     for o in new_viol:
         out(f"{o['where']}  rule={o['rule']}  instance={o['key']}  {o['msg']}")
 
+    audit = None
+    if tier == 'thorough' and not new_viol and not replay and repo_root is None and write_evidence:
+        audit = _sensitivity_audit(pid, out)
+
     n_ob = len(ctx.obligations)
     distinct = len({(o['rule'], o['key']) for o in ctx.obligations})
     n_ok = sum(1 for o in ctx.obligations if o['status'] == 'ok')
@@ -229,6 +293,7 @@ def run_check(pid: str, tier: str, replay: Optional[str] = None, repo_root: Opti
                 'infos': ctx.infos[:60],
                 'tables': ctx.tables,
                 'exhaustive': bool(ctx.exhaustive),
+                'sensitivity_audit': audit if audit is not None else 'thorough tier only (and only when the tree itself passes)',
                 'checker_cmd': f'./check {pid} --tier {tier}',
                 'trusted_base': ['CPython 3.12 ast module', 'gxstat engines in /verif/gxstat',
                                  'rule tables in /verif/rules (each row carries its reason)'],
